@@ -34,6 +34,7 @@ struct GenOpts {
     bool transforms = true;
     int wavelet_max_dims = 2;
     bool optimized_rules = true;   // min-lebesgue / min-delta / max-lebesgue: every further node costs a greedy optimisation
+    bool custom_rules = true;      // global grids with a user-tabulated rule
 };
 
 inline const std::vector<std::string> &globalNested() {
@@ -83,6 +84,10 @@ inline Json genMake(Rng &r, const GenOpts &o) {
         bool nested = o.nested_only || r.chance(0.65);
         std::string rule = nested ? r.pick(globalNested()) : r.pick(globalNonNested());
         if (!o.optimized_rules && (rule == "min-lebesgue" || rule == "min-delta" || rule == "max-lebesgue")) rule = "rleja";
+        if (!o.nested_only && o.custom_rules && r.chance(0.10)) { // user-tabulated rule (Gauss-Legendre nodes) with a seeded, possibly awkward, description text
+            rule = "custom-tabulated";
+            m["custom_desc"] = r.pick<std::string>({"", " leading blank", "  two leading blanks", "custom rule (verif)", "x", "trailing blanks  ", "description: nested keyword", "tab\tinside"});
+        }
         m["rule"] = rule;
         m["alpha"] = (rule.find("gegenbauer") != std::string::npos || rule.find("jacobi") != std::string::npos || rule.find("laguerre") != std::string::npos || rule.find("hermite") != std::string::npos) ? r.pick<double>({0.0, 0.5, 1.0, 2.0}) : 0.0;
         m["beta"] = rule.find("jacobi") != std::string::npos ? r.pick<double>({0.0, 0.5, 1.5}) : 0.0;
@@ -138,7 +143,12 @@ inline void doMake(TasmanianSparseGrid &g, const Json &m) {
     if (type.find("tensor") != std::string::npos) { depth = std::min(depth, 2); for (auto &a : aniso) a = std::min(a, 2); } // tensor types: levels = depth x weight
     if (fam == "fourier") depth = std::min(depth, 3);                                                                   // 3^level points per dimension
     for (;; depth--) {
-        if (fam == "global") g.makeGlobalGrid(d, outs, depth, depthOf(type), ruleOf(m.gets("rule", "clenshaw-curtis")), aniso, m.getd("alpha", 0), m.getd("beta", 0), nullptr, limits);
+        if (fam == "global" && m.gets("rule") == "custom-tabulated") {
+            const int nl = 12; std::vector<int> nn, prec; std::vector<std::vector<double>> xs, ws;
+            for (int l = 0; l < nl; l++) { std::vector<double> w, x; TasGrid::OneDimensionalNodes::getGaussLegendre(l + 1, w, x); nn.push_back(l + 1); prec.push_back(2 * l + 1); xs.push_back(x); ws.push_back(w); }
+            g.makeGlobalGrid(d, outs, std::min(depth, 4), depthOf(type), TasGrid::CustomTabulated(std::move(nn), std::move(prec), std::move(xs), std::move(ws), m.gets("custom_desc", "custom")), aniso, limits);
+        }
+        else if (fam == "global") g.makeGlobalGrid(d, outs, depth, depthOf(type), ruleOf(m.gets("rule", "clenshaw-curtis")), aniso, m.getd("alpha", 0), m.getd("beta", 0), nullptr, limits);
         else if (fam == "sequence") g.makeSequenceGrid(d, outs, depth, depthOf(type), ruleOf(m.gets("rule", "leja")), aniso, limits);
         else if (fam == "localp") g.makeLocalPolynomialGrid(d, outs, depth, (int)m.geti("order", 1), ruleOf(m.gets("rule", "localp")), limits);
         else if (fam == "wavelet") g.makeWaveletGrid(d, outs, depth, (int)m.geti("order", 1) == 3 ? 3 : 1, limits);
@@ -245,6 +255,10 @@ inline std::string applyOp(TasmanianSparseGrid &g, const Json &o, sim::Stats *st
         if (k == "update") {
             if (!(g.isGlobal() || g.isSequence() || g.isFourier())) return "skip:family";
             if (g.isUsingConstruction()) return "skip:construction";
+            // updateGlobalGrid() on a custom-tabulated grid without loaded values re-makes the grid and re-reads the rule from a
+            // null file name (crash in CustomTabulated::read(nullptr)): outside the listed properties, recorded in DESIGN.md, not exercised
+            if (g.isGlobal() && g.getRule() == TasGrid::rule_customtabulated && (outs == 0 || g.getNumLoaded() == 0)) return "skip:custom-rule-remake";
+            if (g.isGlobal() && g.getRule() == TasGrid::rule_customtabulated) { /* custom tables hold 12 levels */ }
             std::string t = o.gets("type", "level");
             std::vector<int> a = ivec(o, "aniso"); fixLen(a, isCurved(t) ? 2 * (size_t)d : (size_t)d, 1);
             int depth = (int)o.geti("depth", 1);
@@ -380,6 +394,7 @@ inline Obs observe(const TasmanianSparseGrid &g, const ObsOpts &oo = ObsOpts()) 
       << " loaded=" << g.getNumLoaded() << " needed=" << g.getNumNeeded() << " points=" << g.getNumPoints() << " constructing=" << g.isUsingConstruction()
       << " domain=" << g.isSetDomainTransfrom() << " conformal=" << g.isSetConformalTransformASIN();
     o.str("meta", m.str());
+    if (g.isGlobal() && g.getRule() == TasGrid::rule_customtabulated) o.str("custom_rule_description", g.getCustomRuleDescription());
     // zero-output grids keep their points in the "loaded" set while getNumLoaded() reports 0: the vector
     // overload of getLoadedPoints() would then write through a zero-sized buffer; not a listed property, avoided here
     if (outs > 0) o.exact("loaded_points", g.getLoadedPoints()); else o.exact("loaded_points", {});
